@@ -3,7 +3,7 @@
 From Coq Require Import ZArith List Arith Lia Permutation.
 From FF Require Import Model.Tensor Model.PauliIdx Model.Tie.C16 Spec.Kron
   Proofs.TensorIdx Proofs.TensorOrder Proofs.Tensor Proofs.TensorKron Proofs.TensorInsert
-  Proofs.TensorInsertModel Proofs.TensorInsertLoop Proofs.TensorUnfold Proofs.TensorTranspose Proofs.TensorTransposeCompose Proofs.TensorMerge Proofs.PauliIdx.
+  Proofs.TensorInsertModel Proofs.TensorInsertLoop Proofs.TensorUnfold Proofs.TensorTranspose Proofs.TensorTransposeCompose Proofs.TensorMerge Proofs.PauliIdx Proofs.PauliIdxDigits.
 (* the comparison functions of the correspondence check are built with this file's dependency cone *)
 From FF Require Corr.C16Obs.
 Import ListNotations.
@@ -290,6 +290,32 @@ Theorem C16_remap_pauli_perm : forall N ord r,
   Permutation r (seq 0 (4 ^ N)).
 Proof. exact remap_pauli_perm. Qed.
 Print Assumptions C16_remap_pauli_perm.
+(* digit form of the remap (analogue of C16_equiv_pauli_digits), composition and inverse: element j of the
+   remap has the base-4 digits of j permuted by `order`; looking up the remap of o2 and then that of o1 is
+   the remap of k |-> o2[o1[k]]; inverse orders undo each other.  Every N, every pair of permutations. *)
+Theorem C16_remap_pauli_digits : forall N ord r j,
+  Permutation ord (seq 0 N) -> remap_pauli (map Z.of_nat ord) N = Ok r -> j < 4 ^ N ->
+  unravel (repeat 4 N) (nth j r 0) = permute ord (unravel (repeat 4 N) j).
+Proof. exact remap_pauli_digits. Qed.
+Print Assumptions C16_remap_pauli_digits.
+Theorem C16_remap_pauli_compose_digits : forall N o1 o2 r1 r2 j,
+  Permutation o1 (seq 0 N) -> Permutation o2 (seq 0 N) ->
+  remap_pauli (map Z.of_nat o1) N = Ok r1 -> remap_pauli (map Z.of_nat o2) N = Ok r2 -> j < 4 ^ N ->
+  unravel (repeat 4 N) (nth (nth j r2 0) r1 0) =
+  permute (map (fun i => nth i o2 0) o1) (unravel (repeat 4 N) j).
+Proof. exact remap_pauli_compose_digits. Qed.
+Theorem C16_remap_pauli_inverse : forall N o1 o2 r1 r2 j,
+  Permutation o1 (seq 0 N) -> Permutation o2 (seq 0 N) ->
+  remap_pauli (map Z.of_nat o1) N = Ok r1 -> remap_pauli (map Z.of_nat o2) N = Ok r2 ->
+  map (fun i => nth i o2 0) o1 = seq 0 N -> j < 4 ^ N ->
+  nth (nth j r2 0) r1 0 = j.
+Proof. exact remap_pauli_inverse. Qed.
+Print Assumptions C16_remap_pauli_inverse.
+Example C16_remap_inverse_example :
+  map (fun i => nth i [2; 0; 1] 0) [1; 2; 0] = seq 0 3 /\
+  (do r1 <- remap_pauli [1; 2; 0]%Z 3; do r2 <- remap_pauli [2; 0; 1]%Z 3;
+   Ok (map (fun j => nth (nth j r2 0) r1 0) (seq 0 64))) = Ok (seq 0 64).
+Proof. split; reflexivity. Qed.
 Example C16_pauli_example :
   equivalent_pauli [2; 0]%Z 3 = [0; 1; 2; 3; 16; 17; 18; 19; 32; 33; 34; 35; 48; 49; 50; 51] /\
   remap_pauli [1; 0]%Z 2 = Ok [0; 4; 8; 12; 1; 5; 9; 13; 2; 6; 10; 14; 3; 7; 11; 15].
